@@ -32,7 +32,9 @@ pub fn strategy(tier: Tier) -> BS<Case> {
     cfg.ntx = prop_oneof![3 => Just(0usize), 6 => 1usize..5].boxed();
     cfg.base = gen::wide_base();
     cfg.time = gen::wild_time();
-    cfg.tx.src = prop_oneof![6 => gen::default_src(), 1 => Just(Src::Null)].boxed();
+    // coinbase-shaped inputs in any position, and 'half null' outpoints (zero txid with another
+    // index; index 0xffffffff with a non-zero txid) that must NOT count as coinbase
+    cfg.tx.src = prop_oneof![12 => gen::default_src(), 2 => Just(Src::Null), 1 => prop_oneof![Just(0u32), Just(0xffff_fffeu32), any::<u32>()].prop_map(Src::ZeroTxid), 1 => any::<u8>().prop_map(|s| Src::Unknown(s, 0xffff_ffff))].boxed();
     cfg.tx.max_common = 4;
     (gen::chain(&cfg), proptest::option::weighted(0.3, any::<u16>()), proptest::option::weighted(0.3, any::<u16>())).prop_map(|(chain, start_sel, end_sel)| Case { chain, start_sel, end_sel }).boxed()
 }
